@@ -1,15 +1,17 @@
 #!/bin/bash
 # usage: tools/seed_batch.sh <ID> <outdir under /tmp/seed> <prefix n|m> [checks]
-# copies the three mutants of an agent into seeded/<ID>-<prefix><k>/ and evaluates them in parallel
+# copies the mutants (1..3, those delivered) of an agent into seeded/<ID>-<prefix><k>/ and evaluates them in parallel
 ID=$1; OUT=$2; PFX=$3; CHECKS=${4:-$ID}
 cd "$(dirname "$0")/.."
 for n in 1 2 3; do
+  [ -f /tmp/seed/$OUT/$n/patch.diff ] || continue
   d=seeded/$ID-$PFX$n; mkdir -p $d
   cp /tmp/seed/$OUT/$n/patch.diff /tmp/seed/$OUT/$n/demo.py /tmp/seed/$OUT/$n/notes.md $d/ 2>/dev/null
   ( python3 tools/seed_eval.py $d $ID --checks $CHECKS --seeds 1,0 > /tmp/q/seed-$ID-$PFX$n.log 2>&1 ) &
 done
 wait
 for n in 1 2 3; do
+[ -f seeded/$ID-$PFX$n/eval.json ] || continue
 /venv/bin/python - <<PY
 import json
 d=json.load(open('seeded/$ID-$PFX$n/eval.json'))
